@@ -61,7 +61,7 @@ func intern(kind uint64, bits uint64) int64 {
 		return c
 	}
 	c := int64(internBase + len(internTab))
-	if c >= math.MaxInt32 {
+	if c >= Huge {
 		panic("intern table overflow")
 	}
 	internTab[k] = c
@@ -122,6 +122,8 @@ type View interface {
 	// OneSample returns a fresh 1-channel 1-sample buffer holding the raw value of sample k.
 	OneSample(k int) View
 	WriteF64(vals []float64) int
+	AppendSampleF64(f float64)
+	SetSampleF64(i int, f float64)
 }
 
 type buf[T signal.SignalTypes] struct {
@@ -201,6 +203,18 @@ func (v *buf[T]) Data() (data []int64, ok bool) {
 		data = append(data, codeOf(w.Sample(i)))
 	}
 	return data, true
+}
+func (v *buf[T]) AppendSampleF64(f float64) {
+	y := T(f)
+	begin()
+	v.b.AppendSample(y)
+	end()
+}
+func (v *buf[T]) SetSampleF64(i int, f float64) {
+	y := T(f)
+	begin()
+	v.b.SetSample(i, y)
+	end()
 }
 func (v *buf[T]) OneSample(k int) View {
 	o := signal.Alloc[T](signal.Allocator{Channels: 1, Length: 1, Capacity: 1})
